@@ -136,9 +136,9 @@ theorem frame_all (P : Prog) : ∀ fuel,
       split
       · -- reExecWithFlags
         rcases hro : runOps P fuel (P.body f) { env := env, flags := true }
-          { s with run := { s.run with sync := .none, efDefer := s.run.efStart, efStart := false, interrupt := .nil } } with ⟨o, a1, s1⟩
+          { s with run := { s.run with sync := .none, efDefer := s.run.efStart, efStart := false, interrupt := .nil, efDebug := s.run.sigDebug }, atc := s.atc || s.run.sigDebug } with ⟨o, a1, s1⟩
         have h1 := ihO (P.body f) { env := env, flags := true }
-          { s with run := { s.run with sync := .none, efDefer := s.run.efStart, efStart := false, interrupt := .nil } }
+          { s with run := { s.run with sync := .none, efDefer := s.run.efStart, efStart := false, interrupt := .nil, efDebug := s.run.sigDebug }, atc := s.atc || s.run.sigDebug }
         rw [hro] at h1
         have h2 := ihD env a1.defers o none s1
         rcases hrd : runDefers P fuel env a1.defers o none s1 with ⟨o2, sv2, s2⟩
@@ -155,8 +155,8 @@ theorem frame_all (P : Prog) : ∀ fuel,
           · exact h2b.trans h1b
           · intro _; exact h2c (h1c rfl)
       · rcases hro : runOps P fuel (P.body f) { env := env, flags := false }
-          { s with run := { s.run with sync := .none, interrupt := .nil } } with ⟨o, a1, s1⟩
-        have h1 := ihO (P.body f) { env := env, flags := false } { s with run := { s.run with sync := .none, interrupt := .nil } }
+          { s with run := { s.run with sync := .none, interrupt := .nil }, atc := s.atc || s.run.sigDebug } with ⟨o, a1, s1⟩
+        have h1 := ihO (P.body f) { env := env, flags := false } { s with run := { s.run with sync := .none, interrupt := .nil }, atc := s.atc || s.run.sigDebug }
         rw [hro] at h1
         cases o with
         | ok => exact ⟨h1.1, h1.2.1, h1.2.2⟩
@@ -394,9 +394,9 @@ theorem pair_all (P : Prog) (hfix : P.savesPanic = true) : ∀ fuel,
       split
       · -- reExecWithFlags
         have hO := ihO pan (P.body f) { env := env, flags := true }
-          { s with run := { s.run with sync := .none, efDefer := s.run.efStart, efStart := false, interrupt := .nil } } hi rfl
+          { s with run := { s.run with sync := .none, efDefer := s.run.efStart, efStart := false, interrupt := .nil, efDebug := s.run.sigDebug }, atc := s.atc || s.run.sigDebug } hi rfl
         rcases hro : runOps P fuel (P.body f) { env := env, flags := true }
-          { s with run := { s.run with sync := .none, efDefer := s.run.efStart, efStart := false, interrupt := .nil } } with ⟨o, a1, s1⟩
+          { s with run := { s.run with sync := .none, efDefer := s.run.efStart, efStart := false, interrupt := .nil, efDebug := s.run.sigDebug }, atc := s.atc || s.run.sigDebug } with ⟨o, a1, s1⟩
         rw [hro] at hO
         simp only at hO
         have hD := ihD pan env a1.defers o none s1 henv (Nat.lt_of_lt_of_le hlt hO.2.1)
@@ -430,9 +430,9 @@ theorem pair_all (P : Prog) (hfix : P.savesPanic = true) : ∀ fuel,
           · rfl
           · simp [h] at hcnd
         have hO := ihO pan (P.body f) { env := env, flags := false }
-          { s with run := { s.run with sync := .none, interrupt := .nil } } hi hs
+          { s with run := { s.run with sync := .none, interrupt := .nil }, atc := s.atc || s.run.sigDebug } hi hs
         rcases hro : runOps P fuel (P.body f) { env := env, flags := false }
-          { s with run := { s.run with sync := .none, interrupt := .nil } } with ⟨o, a1, s1⟩
+          { s with run := { s.run with sync := .none, interrupt := .nil }, atc := s.atc || s.run.sigDebug } with ⟨o, a1, s1⟩
         rw [hro] at hO
         simp only at hO
         have hnf : NoFire pan s.run := fun h => by rw [hd] at h; cases h
@@ -510,6 +510,164 @@ theorem pair_all (P : Prog) (hfix : P.savesPanic = true) : ∀ fuel,
             simp only [svNext, Option.isNone_none, if_true] at hP
             simp only at hP ⊢
             rw [hP]
+
+
+
+/-- the debugger mode: `Signals.Debug` and `DebugDepth` as found, `EFDebug` equal to `Signals.Debug` if it was -/
+def Dbg (r r' : Run) : Prop :=
+  r'.sigDebug = r.sigDebug ∧ r'.debugDepth = r.debugDepth ∧ (r.efDebug = r.sigDebug → r'.efDebug = r.sigDebug)
+
+theorem Dbg.refl (r : Run) : Dbg r r := ⟨rfl, rfl, id⟩
+
+theorem Dbg.trans {a b c : Run} (h1 : Dbg a b) (h2 : Dbg b c) : Dbg a c :=
+  ⟨h2.1.trans h1.1, h2.2.1.trans h1.2.1, fun h => (h2.2.2 ((h1.2.2 h).trans h1.1.symm)).trans h1.1⟩
+
+theorem dbg_of_intr (s : St) (i : Intr) : Dbg s.run ({ s with run := { s.run with interrupt := i } } : St).run :=
+  ⟨rfl, rfl, id⟩
+
+theorem recoverOp_dbg (s : St) : Dbg s.run (recoverOp s).run := by
+  unfold recoverOp
+  simp only
+  split
+  · exact Dbg.refl _
+  · split
+    · exact Dbg.refl _
+    · split
+      · exact Dbg.refl _
+      · exact ⟨rfl, rfl, id⟩
+
+theorem after_adv_dbg (P : Prog) (fuel k : Nat) (rest : List Op) (a : Act) (s s0 : St)
+    (h : ∀ a' s', Dbg s'.run (runOps P fuel rest a' s').2.2.run) (hb : Dbg s.run s0.run) :
+    Dbg s.run (match advance P.U k a s0 with | (a1, s1) => runOps P fuel rest a1 s1).2.2.run := by
+  obtain ⟨i, hi⟩ := advance_frame P.U k a s0
+  rcases hadv : advance P.U k a s0 with ⟨a1, s1⟩
+  rw [hadv] at hi
+  simp only at hi ⊢
+  subst hi
+  exact Dbg.trans hb (Dbg.trans (dbg_of_intr s0 i) (h _ _))
+
+theorem after_round_dbg (P : Prog) (fuel : Nat) (rest : List Op) (a : Act) (s s0 : St)
+    (h : ∀ a' s', Dbg s'.run (runOps P fuel rest a' s').2.2.run) (hb : Dbg s.run s0.run) :
+    Dbg s.run (match nextRound P.U a s0 with | (a1, s1) => runOps P fuel rest a1 s1).2.2.run := by
+  obtain ⟨i, hi⟩ := nextRound_frame P.U a s0
+  rcases hadv : nextRound P.U a s0 with ⟨a1, s1⟩
+  rw [hadv] at hi
+  simp only at hi ⊢
+  subst hi
+  exact Dbg.trans hb (Dbg.trans (dbg_of_intr s0 i) (h _ _))
+
+/-- nothing that runs inside an evaluation changes the debugger mode (`Signals.Debug`, `DebugDepth`; `EFDebug`
+    follows `Signals.Debug`): the scripted debugger keeps answering "step", breakpoints are not modelled -/
+theorem debug_all (P : Prog) : ∀ fuel,
+    (∀ ops a s, Dbg s.run (runOps P fuel ops a s).2.2.run) ∧
+    (∀ f s, Dbg s.run (callFn P fuel f s).2.run) ∧
+    (∀ f env s, Dbg s.run (execFn P fuel f env s).2.run) ∧
+    (∀ funenv ds o sv s, Dbg s.run (runDefers P fuel funenv ds o sv s).2.2.run) := by
+  intro fuel
+  induction fuel with
+  | zero =>
+    refine ⟨?_, ?_, ?_, ?_⟩ <;> intros <;> simp only [runOps, callFn, execFn, runDefers] <;> exact Dbg.refl _
+  | succ fuel ih =>
+    obtain ⟨ihO, ihC, ihE, ihD⟩ := ih
+    refine ⟨?_, ?_, ?_, ?_⟩
+    · intro ops a s
+      cases ops with
+      | nil => simp only [runOps]; split <;> exact ⟨rfl, rfl, id⟩
+      | cons op rest =>
+        cases op with
+        | pad k => simp only [runOps]; exact after_adv_dbg P fuel k rest a s s (ihO rest) (Dbg.refl _)
+        | hook =>
+          simp only [runOps]
+          split
+          · exact ⟨rfl, rfl, id⟩
+          · exact after_adv_dbg P fuel 1 rest a s _ (ihO rest) ⟨rfl, rfl, id⟩
+        | panic v => simp only [runOps]; exact Dbg.refl _
+        | recover => simp only [runOps]; exact after_adv_dbg P fuel 1 rest a s _ (ihO rest) (recoverOp_dbg s)
+        | call f =>
+          simp only [runOps]
+          have hc := ihC f s
+          rcases hcf : callFn P fuel f s with ⟨o, s1⟩
+          rw [hcf] at hc
+          cases o with
+          | ok => exact after_adv_dbg P fuel 1 rest a s s1 (ihO rest) hc
+          | panic v => exact hc
+        | try_ f =>
+          simp only [runOps]
+          have hc := ihC f s
+          rcases hcf : callFn P fuel f s with ⟨o, s1⟩
+          rw [hcf] at hc
+          cases o with
+          | ok => exact after_adv_dbg P fuel 1 rest a s _ (ihO rest) hc
+          | panic v => exact after_adv_dbg P fuel 1 rest a s _ (ihO rest) hc
+        | dfr f =>
+          simp only [runOps]
+          split
+          · exact Dbg.refl _
+          · split
+            · exact ihO rest _ s
+            · exact after_round_dbg P fuel rest _ s s (ihO rest) (Dbg.refl _)
+    · intro f s
+      simp only [callFn]
+      have he := ihE f s.nextEnv { s with nextEnv := s.nextEnv + 1, run := { s.run with currEnv := some s.nextEnv } }
+      rcases hef : execFn P fuel f s.nextEnv { s with nextEnv := s.nextEnv + 1, run := { s.run with currEnv := some s.nextEnv } } with ⟨o, s1⟩
+      rw [hef] at he
+      cases o with
+      | ok => exact ⟨he.1, he.2.1, he.2.2⟩
+      | panic v => exact he
+    · intro f env s
+      simp only [execFn]
+      split
+      · -- reExecWithFlags
+        rcases hro : runOps P fuel (P.body f) { env := env, flags := true }
+          { s with run := { s.run with sync := .none, efDefer := s.run.efStart, efStart := false, interrupt := .nil, efDebug := s.run.sigDebug }, atc := s.atc || s.run.sigDebug } with ⟨o, a1, s1⟩
+        have h1 := ihO (P.body f) { env := env, flags := true }
+          { s with run := { s.run with sync := .none, efDefer := s.run.efStart, efStart := false, interrupt := .nil, efDebug := s.run.sigDebug }, atc := s.atc || s.run.sigDebug }
+        rw [hro] at h1
+        have h2 := ihD env a1.defers o none s1
+        rcases hrd : runDefers P fuel env a1.defers o none s1 with ⟨o2, sv2, s2⟩
+        rw [hrd] at h2
+        obtain ⟨h1a, h1b, h1c⟩ := h1
+        obtain ⟨h2a, h2b, h2c⟩ := h2
+        have e1 : s1.run.efDebug = s1.run.sigDebug := (h1c rfl).trans h1a.symm
+        cases sv2 with
+        | none => exact ⟨h2a.trans h1a, h2b.trans h1b, fun _ => (h2c e1).trans h1a⟩
+        | some pp => exact ⟨h2a.trans h1a, h2b.trans h1b, fun _ => (h2c e1).trans h1a⟩
+      · rcases hro : runOps P fuel (P.body f) { env := env, flags := false }
+          { s with run := { s.run with sync := .none, interrupt := .nil }, atc := s.atc || s.run.sigDebug } with ⟨o, a1, s1⟩
+        have h1 := ihO (P.body f) { env := env, flags := false } { s with run := { s.run with sync := .none, interrupt := .nil }, atc := s.atc || s.run.sigDebug }
+        rw [hro] at h1
+        cases o with
+        | ok => exact ⟨h1.1, h1.2.1, h1.2.2⟩
+        | panic v => exact h1
+    · intro funenv ds o sv s
+      cases ds with
+      | nil => simp only [runDefers]; exact Dbg.refl _
+      | cons f ds =>
+        rw [runDefers.eq_def]
+        cases o with
+        | ok =>
+          simp only
+          rcases hcf : callFn P fuel f _ with ⟨o2, s1⟩
+          have hc : Dbg s.run s1.run := by
+            have h := congrArg (fun r => r.2.run) hcf
+            simp only at h
+            rw [← h]
+            exact ihC f _
+          simp only at hc ⊢
+          refine Dbg.trans ?_ (ihD funenv ds _ _ _)
+          exact ⟨hc.1, hc.2.1, hc.2.2⟩
+        | panic v =>
+          simp only
+          rcases hcf : callFn P fuel f _ with ⟨o2, s1⟩
+          have hc : Dbg s.run s1.run := by
+            have h := congrArg (fun r => r.2.run) hcf
+            simp only at h
+            rw [← h]
+            exact ihC f _
+          simp only at hc ⊢
+          refine Dbg.trans ?_ (ihD funenv ds _ _ _)
+          exact ⟨hc.1, hc.2.1, hc.2.2⟩
+
 
 
 end Restore
